@@ -58,10 +58,9 @@ CLAIMED = {
         category='model_checking',
         text='For every symbolic path of every component setter (four owned RI types; None/Some), the MARKED result language — other components keep the markers of the original decomposition, the edited '
              'component\'s markers surround the written value, a shield literal is counted to the path — is included in det(M_O) with all ten component markers. M_O is unambiguous, so for ALL buffers and arguments: '
-             'the component reads back as requested (presence/absence included; shield·value for the path), every other component reads back byte-identical (a boundary marker of another component inside the removed range survives without its text and breaks the inclusion: nothing but the target is removed), shields are only the documented "/", "/.", "./". ',
+             'the component reads back as requested (presence/absence included; shield·value for the path), every other component reads back byte-identical (a boundary marker of another component inside the removed range survives without its text and breaks the inclusion: nothing but the target is removed), shields are only the documented "/", "/.", "./", each written only under its documented condition (for every shield-writing path, the intended result without the shield pieces lies inside: authority present and path not starting with "/"; no authority and path starting with "//"; neither scheme nor authority and a ":" in the first segment). ',
         design_ref='DESIGN.md §3 Engine D (D3), Appendix B, §4 C05',
-        note='Relies on C02 (scanner ranges = specification spans) and on the splice summaries of utils::replace/allocate_range. Exactness of the shield CONDITIONS is decided through the read-back inclusion '
-             '(an unnecessary shield changes the path that is read back only in the documented form; a missing one makes the inclusion fail). Genuine defect F6 repaired (see C04).',
+        note='Relies on C02 (scanner ranges = specification spans) and on the splice summaries of utils::replace/allocate_range. A missing shield makes the read-back inclusion fail; an unnecessary one is reported by the documented-condition rule. Genuine defect F6 repaired (see C04).',
         technique='path-sensitive effect analysis of MIR (abstract interpretation, affine domain, all CFG paths) + marked-language inclusion (static analysis)',
         engine='D+A',
     ),
@@ -191,8 +190,8 @@ CLAIMED = {
              'is a valid value of the same type with no query and no fragment; (2) PathImpl::directory returns the whole (empty) path, the EMPTY constant or a prefix bytes[..=i] whose last byte is "/", and that "/" is the LAST one '
              '(Engine S in mirror mode on the backward scan; Iterator::rposition is the last match by definition); (3) RiRefImpl::base returns bytes[.. find_path(bytes,0).start + len(directory(path))] — decided semantically over affine terms; '
              '(4) the six typed base() wrappers re-wrap exactly that slice. suffix(), the "only when" half: (5) RiRefImpl::suffix reaches PathImpl::suffix (its only source of Some) only on CFG paths on which the two scheme options AND the two '
-             'authority options compared equal (path-sensitive evaluation of the guards), applies it to (value path, prefix path) and accompanies the result with the value\'s own query and fragment; (6) PathImpl::suffix compares the absoluteness '
-             'of the two paths and then consumes the two normalised-segment iterators in lockstep: one iteration of its loop, on every CFG path, does exactly — (Some, Some, equal) go on; (Some, Some, different) or (None, Some) return None; '
+             'authority options compared equal (path-sensitive evaluation of the guards), applies it to (value path, prefix path) and accompanies the result with the value\'s own query and fragment; (6) PathImpl::suffix reaches the comparison of the segments exactly when the two paths are of the same kind (abstract execution per kind combination, every other test taken both ways) '
+             'and then consumes the two normalised-segment iterators in lockstep: one iteration of its loop, on every CFG path, does exactly — (Some, Some, equal) go on; (Some, Some, different) or (None, Some) return None; '
              '(Some, None) push that value segment and go on; (None, None) return Some(buffer).',
         design_ref='DESIGN.md §4 C16, §10.11, §10.12',
         note='NOT decided: that the normalised segments themselves are right (C09\'s undecided sequence) and the reconstruction law as an equality of values; relies on C02 for find_path and on smallvec::IntoIter staying exhausted.',
